@@ -5,10 +5,13 @@ package c14
 import (
 	"fmt"
 	"github.com/form3tech-oss/f1/v2/internal/trigger/api"
+	"github.com/form3tech-oss/f1/v2/pkg/f1"
+	f1testing "github.com/form3tech-oss/f1/v2/pkg/f1/testing"
 	"math"
 	"sort"
 	"strconv"
 	"strings"
+	"sync/atomic"
 	"testing"
 	"time"
 
@@ -791,4 +794,88 @@ func TestC14Fuzz(t *testing.T) {
 	o.Stat("fuzz_documents", n)
 	o.Case("fuzz_crashes", []string{kit.I(crashes)}, "T", "fuzz", "nt")
 	_ = sort.Strings
+}
+
+// ---------------------------------------------------------------- flag level: the run command with values at the ends of their types
+
+// Every combination is either rejected with an error before the scenario's setup runs, or runs
+// (setup executed, the command returns): never a crash, never a run that starts with a trigger
+// that cannot run.
+func TestC14CLI(t *testing.T) {
+	o := kit.Get()
+	defer o.Close()
+	r := kit.NewRand(kit.Seed() + 145)
+	maxIters := []string{"0", "1", "7", "9223372036854775807", "9223372036854775808", "18446744073709551615", "-1", "x"}
+	concs := []string{"1", "2", "50", "0", "-1", "x"}
+	durs := []string{"150ms", "1s", "0s", "-1s", "10ms", "x"}
+	mfs := []string{"0", "1", "18446744073709551615", "-1"}
+	mfrs := []string{"0", "100", "101", "-1", "50"}
+	for i := 0; i < kit.N(40, 400); i++ {
+		mode := kit.Pick(r, "constant", "users", "staged", "ramp", "gaussian")
+		args := []string{"run", mode, "c14cli"}
+		pick := func(flag string, vals []string, validFirst int) {
+			if r.Chance(80) {
+				v := vals[r.Intn(len(vals))]
+				if r.Chance(60) {
+					v = vals[r.Intn(validFirst)]
+				}
+				args = append(args, flag, v)
+			}
+		}
+		pick("--max-iterations", maxIters, 6)
+		pick("--concurrency", concs, 3)
+		pick("--max-duration", durs, 2)
+		pick("--max-failures", mfs, 3)
+		pick("--max-failures-rate", mfrs, 2)
+		hasDur := false
+		for _, a := range args {
+			if a == "--max-duration" {
+				hasDur = true
+			}
+		}
+		if !hasDur {
+			args = append(args, "--max-duration", "150ms")
+		}
+		switch mode {
+		case "constant":
+			args = append(args, "--rate", kit.Pick(r, "2/10ms", "1/s", "0/s"))
+		case "staged":
+			args = append(args, "--stages", kit.Pick(r, "0s:2,100ms:2", "50ms:5"), "--iterationFrequency", "10ms")
+		case "ramp":
+			args = append(args, "--start-rate", "1/10ms", "--end-rate", "5/10ms", "--ramp-duration", "100ms")
+		case "gaussian":
+			args = append(args, "--volume", "5000", "--repeat", "1s", "--iteration-frequency", "10ms", "--peak", "100ms", "--standard-deviation", "100ms")
+		}
+		var setups, iters atomic.Int64
+		inst := f1.New()
+		inst.Add("c14cli", func(*f1testing.T) f1testing.RunFn {
+			setups.Add(1)
+			return func(*f1testing.T) { iters.Add(1) }
+		})
+		var err error
+		done := make(chan struct{})
+		var crashed bool
+		var pv any
+		go func() {
+			defer close(done)
+			crashed, pv = kit.Guard(func() { err = inst.ExecuteWithArgs(args) })
+		}()
+		select {
+		case <-done:
+		case <-time.After(30 * time.Second):
+			o.Fail("cli-hung", fmt.Sprintf("f1 %s did not return within 30s", strings.Join(args, " ")))
+			continue
+		}
+		switch {
+		case crashed:
+			o.Fail("input-crash-cli", fmt.Sprintf("f1 %s crashed: %v", strings.Join(args, " "), pv))
+		case err != nil && setups.Load() == 0:
+			o.Count("cli", "rejected before setup")
+		case setups.Load() == 1:
+			o.Count("cli", "ran")
+		default:
+			o.Fail("cli-neither-rejected-nor-run", fmt.Sprintf("f1 %s: error %v, setup executed %d times", strings.Join(args, " "), err, setups.Load()))
+		}
+		o.Case("fuzz_crashes", []string{kit.I(map[bool]int{false: 0, true: 1}[crashed])}, "T", "cli", "nt")
+	}
 }
